@@ -97,7 +97,9 @@ def render(rng, t, parent_prec=0, right=False):
     elif "stat" in t:
         s = t["stat"]
     elif "neg" in t:
-        inner = render(rng, t["neg"], 3)
+        # stacked signs without parentheses ("- - mean", "--3") are part of the grammar
+        stacked = "neg" in t["neg"] and rng.random() < 0.6
+        inner = render(rng, t["neg"], 0 if stacked else 3)
         # "- x": a space keeps "--" readable; the grammar takes any number of leading signs
         s = "-" + rng.choice(["", " "]) + inner
         if parent_prec >= 3:
@@ -249,7 +251,7 @@ def run_creator(out: Outcome, drv):
     import xarray as xr
     import pandas as pd
 
-    n = 25 if out.tier == "quick" else 300
+    n = 60 if out.tier == "quick" else 300
     rng = gen.rng_for(out.seed, "C20", "creator")
     tmp = tempfile.mkdtemp(prefix="verif_c20_")
     try:
@@ -268,16 +270,16 @@ def run_creator(out: Outcome, drv):
             j0, j1 = sorted(rng.sample(range(nlon), 2)) if nlon > 1 and rng.random() < 0.8 else (0, nlon - 1)
             edge = rng.choice([F(0), F(0), F(1, 4), -F(1, 4)])   # on the cell coordinate, just outside, just inside
             bbox = [lons[j0] + edge, lats[i0] + edge, lons[j1] - edge, lats[i1] - edge]
-            inside = [cells[i][j] for i in range(nlat) for j in range(nlon)
-                      if bbox[1] <= lats[i] <= bbox[3] and bbox[0] <= lons[j] <= bbox[2] and cells[i][j] is not None]
-            if not inside or sum(inside) == 0:
-                continue
-            m = sum(inside) / len(inside)
-            var = sum((x - m) ** 2 for x in inside) / len(inside)
-            stats_exact = {"min": min(inside), "max": max(inside), "mean": m}
+            # expected statistics and spans come from the Lean model of the creator (Model/Creator.lean:
+            # inclusive box, NaN cells dropped, days irrelevant for a time-constant climatology)
             start = rng.choice(["2020-01-01", "2020-03-10", "2020-06-01", "2020-11-20"])
             end = {"2020-01-01": "2020-02-01", "2020-03-10": "2020-05-01", "2020-06-01": "2020-06-20", "2020-11-20": "2021-01-10"}[start]
+            days = (pd.Timestamp(end) - pd.Timestamp(start)).days
+            wire_cells = [{"lat": enc(lats[i]), "lon": enc(lons[j]), "value": enc(cells[i][j])} for i in range(nlat) for j in range(nlon)]
             exprs = {"suspect_min": "mean - 1", "suspect_max": "mean + 2 * 1", "fail_min": "min - ( max - min ) / 2", "fail_max": "max * 2"}
+            pre, = drv.run([{"kind": "creator", "cells": wire_cells, "bbox": enc(bbox), "days": days}])
+            if pre["stats"] is None or pre["stats"]["mean"][0] == 0:
+                continue       # nothing inside (the real code then starts padding the box: outside the property)
             vc = QcVariableConfig({"variable": "temp", "bbox": [float(b) for b in bbox], "start_time": start, "end_time": end,
                                    "tests": {"gross_range_test": exprs}})
             cc = CreatorConfig({"datasets": [{"name": "d", "file_path": path, "variables": {"temp": "temp"}}]})
@@ -289,21 +291,32 @@ def run_creator(out: Outcome, drv):
                 out.record(case, True, ["creator", "error"])
                 out.violation(f"C20 creator: create_config raised {type(e).__name__}: {e}", {"case": jsonable(case)})
                 continue
-            want = {
-                "suspect_span": [m - 1, m + 2],
-                "fail_span": [stats_exact["min"] - (stats_exact["max"] - stats_exact["min"]) / 2, stats_exact["max"] * 2],
-            }
+            a, = drv.run([{"kind": "creator", "cells": wire_cells, "bbox": enc(bbox), "days": days, "std": enc(F(float(stats_used["std"]))),
+                           "exprs": [[exprs["suspect_min"], exprs["suspect_max"]], [exprs["fail_min"], exprs["fail_max"]]]}])
+            fr = lambda p: F(p[0], p[1])  # noqa: E731
+            st = {k: fr(v) for k, v in a["stats"].items()}
+            one = {k: fr(v) for k, v in a["stats_one_day"].items()}
             bad = []
-            for k in want:
-                for a, b in zip(got[k], want[k]):
-                    if abs(F(float(a)) - b) > F(1, 10**9) * max(1, abs(b)):
-                        bad.append(f"{k}: got {got[k]} want {[float(x) for x in want[k]]}")
-            if abs(F(float(stats_used["std"])) ** 2 - var) > F(1, 10**9) * max(1, var):
-                bad.append(f"std {stats_used['std']} vs exact variance {float(var)}")
-            out.record(case, True, ["creator", f"cells:{len(inside)}"])
+            if st != one:
+                bad.append("model: statistics depend on the number of days (C20_stats_replicate violated?)")
+            close = lambda x, y: abs(F(float(x)) - y) <= F(1, 10**9) * max(1, abs(y))  # noqa: E731
+            for k in ("min", "max", "mean"):
+                if not close(stats_used[k], st[k]):
+                    bad.append(f"{k}: {stats_used[k]} vs {float(st[k])}")
+            if not close(float(stats_used["std"]) ** 2, st["var"]):
+                bad.append(f"std {stats_used['std']} vs exact variance {float(st['var'])}")
+            for name, sp in zip(("suspect_span", "fail_span"), a["spans"]):
+                if sp is None:
+                    bad.append(f"{name}: the grammar model could not evaluate the expressions")
+                    continue
+                for x, y in zip(got[name], sp):
+                    if not close(x, fr(y)):
+                        bad.append(f"{name}: got {got[name]} want {[float(fr(v)) for v in sp]}")
+            out.record(case, True, ["creator", f"cells:{a['n_inside']}"])
             if bad:
-                out.violation("C20 creator (spans = expressions on min/max/mean/std of the cells inside the inclusive bbox): " + "; ".join(bad),
-                              {"case": jsonable(case), "observed": jsonable(got)})
+                out.violation("C20 creator (IoosQc.creatorSpan / C20_span_days_irrelevant: spans = expressions on min/max/mean/std of the "
+                              "cells inside the inclusive bbox): " + "; ".join(bad),
+                              {"case": jsonable(case), "observed": jsonable(got), "model": a})
             os.remove(path)
     finally:
         shutil.rmtree(tmp, ignore_errors=True)
